@@ -73,6 +73,14 @@ type ShTagOrder struct {
 	ShInner2
 }
 
+// ShWideKeys: integer keys that need an 8-byte head, and a JSON tag whose omitempty is followed by another option
+type ShWideKeys struct {
+	A *int64  `cbor:"4294967303,keyasint,omitempty" json:"a,omitempty,omitzero"`
+	B *string `cbor:"-4294967297,keyasint" json:"b"`
+	C *[]byte `cbor:"7,keyasint,omitempty" json:"c,omitempty,string"`
+	D *int64  `cbor:"-1,keyasint,omitempty" json:"d,omitempty"`
+}
+
 // ShIfaceVal: the embedded interface holds a struct *by value* (the serialisers read it like any other; the populate
 // helpers cannot write to it and must say so with an error)
 type IExtV interface{ MarkerV() }
@@ -156,6 +164,7 @@ func shapeInstances() []func() interface{} {
 		func() interface{} { return &ShAllOpt{} },
 		func() interface{} { return &ShInner{} },
 		func() interface{} { return &ShTagOrder{} },
+		func() interface{} { return &ShWideKeys{} },
 	}
 }
 
